@@ -118,6 +118,107 @@ pub fn run(ctx: &mut Ctx) {
     for case in ctx.cases("frontends", 300, true) {
         ctx.run_case("frontends", case, frontends_case);
     }
+    // call sequences that may kill the process (handles used more than once, NULL arrays of
+    // length 0): only run as isolated cases, one process each (driver: `isolated`)
+    if ctx.only.is_some() {
+        for case in ctx.cases("handle_reuse", 12, false) {
+            ctx.run_case("handle_reuse", case, |ctx, rng| handle_reuse_case(ctx, rng, case));
+        }
+    }
+}
+
+/// One CNF handle is given to every exported function that takes one, the compiling ones twice
+/// (natively they all borrow the formula); empty arrays are passed as (NULL, 0), which is how a C
+/// client represents them.
+fn handle_reuse_case(ctx: &mut Ctx, rng: &mut Rng, case: u64) {
+    crate::caps::set_unique(Some(64));
+    ctx.count("isolated_c_sequences", 1);
+    ctx.case_eval(Some(crate::rng::mix(0xC18 ^ case)));
+    unsafe {
+        if case % 4 == 0 {
+            // (NULL, 0) arrays
+            let which = (case / 4) % 3;
+            ctx.count("null_array_calls", 1);
+            match which {
+                0 => {
+                    let c = cnf_new(std::ptr::null(), 0);
+                    if *c != Cnf::new(&[]) {
+                        ctx.violation("ffi.cnf_new", "cnf_new(NULL, 0) is not the clause-free formula", json!({}));
+                    }
+                }
+                1 => {
+                    let cls = [Clause { vars: std::ptr::null_mut(), len: 0 }];
+                    let c = cnf_new(cls.as_ptr(), 1);
+                    if *c != Cnf::new(&[vec![]]) {
+                        ctx.violation("ffi.cnf_new", "cnf_new of one (NULL, 0) clause is not the formula with one empty clause", json!({}));
+                    }
+                }
+                _ => {
+                    let o = var_order_new(std::ptr::null(), 0);
+                    if format!("{}", *o) != format!("{}", VarOrder::new(&[])) {
+                        ctx.violation("ffi.var_order_new", "var_order_new(NULL, 0) is not the empty order", json!({}));
+                    }
+                }
+            }
+            return;
+        }
+        let st = CnfStyle { max_vars: rng.range(2, 6), max_clauses: rng.range(1, 8), max_width: 3, allow_empty_clause: false, allow_empty_cnf: false, allow_taut: false, allow_dup: true };
+        let mut cl = random_clauses(&st, rng);
+        cl.retain(|c| !c.is_empty());
+        if cl.is_empty() {
+            cl.push(vec![(0, true), (1, false)]);
+        }
+        let n = clauses_num_vars(&cl);
+        let t = clauses_tt(&cl, n);
+        let info = json!({"clauses": clauses_json(&cl)});
+        let native = clauses_to_cnf(&cl);
+        let mut lits: Vec<Vec<Literal>> = cl.iter().map(|c| c.iter().map(|(v, p)| Literal::new(VarLabel::new(*v as u64), *p)).collect()).collect();
+        let clauses: Vec<Clause> = lits.iter_mut().map(|l| Clause { vars: l.as_mut_ptr(), len: l.len() }).collect();
+        let h = cnf_new(clauses.as_ptr(), clauses.len());
+        // two BDD builders under different orders compile the SAME handle
+        for round in 0..2 {
+            let perm = rng.perm(n);
+            let lbls: Vec<VarLabel> = perm.iter().map(|x| VarLabel::new(*x as u64)).collect();
+            let b = robdd_builder_all_table(var_order_new(lbls.as_ptr(), lbls.len()));
+            let r = robdd_builder_compile_cnf(b, h);
+            ctx.count("c_calls_on_a_reused_cnf_handle", 1);
+            let ct = c_tt(r, n, 0);
+            if ct != t || *h != native {
+                ctx.violation("ffi.handle_reuse", "a CNF handle compiled by a BDD builder is not usable (or not the same formula) afterwards",
+                    json!({"round": round, "observed": ct.hex(), "expected": t.hex(), "input": info}));
+                return;
+            }
+        }
+        let mf = cnf_min_fill_order(h);
+        if format!("{}", *mf) != format!("{}", native.min_fill_order()) {
+            ctx.violation("ffi.handle_reuse", "cnf_min_fill_order on a handle that was compiled before differs from the native order", json!({"input": info}));
+        }
+        let (_, full_vt) = random_vtree(n, rng);
+        for _ in 0..2 {
+            let sb = sdd_builder_new(Box::into_raw(Box::new(full_vt.to_rsdd())));
+            let sr = sdd_builder_compile_cnf(sb, h);
+            ctx.count("c_calls_on_a_reused_cnf_handle", 1);
+            if SddWalker::new(n).tt(*sr) != t {
+                ctx.violation("ffi.handle_reuse", "sdd_builder_compile_cnf on a reused CNF handle gives a wrong function", json!({"input": info}));
+            }
+        }
+        for _ in 0..2 {
+            let dl: Vec<VarLabel> = rng.perm(n).iter().map(|x| VarLabel::new(*x as u64)).collect();
+            let db = ddnnf_builder_new(var_order_new(dl.as_ptr(), dl.len()));
+            let dr = ddnnf_builder_compile_cnf_topdown(db, h);
+            ctx.count("c_calls_on_a_reused_cnf_handle", 1);
+            if BddWalker::new(n).tt(*dr) != t {
+                ctx.violation("ffi.handle_reuse", "ddnnf_builder_compile_cnf_topdown on a reused CNF handle gives a wrong function", json!({"input": info}));
+            }
+        }
+        // and once more by a BDD builder at the end
+        let b = robdd_builder_all_table(var_order_linear(n) as *mut VarOrder);
+        let r = robdd_builder_compile_cnf(b, h);
+        if c_tt(r, n, 0) != t {
+            ctx.violation("ffi.handle_reuse", "a CNF handle used by every front end is not compiled correctly at the end", json!({"input": info}));
+        }
+    }
+    crate::caps::reset();
 }
 
 /// canonical string of a diagram seen ONLY through the C accessors
